@@ -121,7 +121,7 @@ static std::vector<int> lane_weights(const std::string &lane, Rng &r) {
     } else if (lane == "names" || lane == "idhist") {
         w[OP_mk_graph] = 4; w[OP_mk_fitted] = 2; if (lane == "idhist") { w[OP_force_id] = 3; w[OP_clock] = 6; }
         w_set(w, create_core, 14); w_set(w, deletes, 7); w[OP_prop_create] = 12; w[OP_feat_create] = 8; w[OP_tag_addref] = 10; w[OP_tag_rmref] = 5;
-        w[OP_group_add] = 10; w[OP_group_rm] = 5; w[OP_add_source] = 10; w[OP_rm_source] = 5; w[OP_reopen] = 10; w[OP_set_sources] = 2; w[OP_tag_setrefs] = 2; w[OP_group_set] = 2;
+        w[OP_group_add] = 10; w[OP_group_rm] = 5; w[OP_add_source] = 10; w[OP_rm_source] = 5; w[OP_reopen] = 10; w[OP_set_sources] = 4; w[OP_tag_setrefs] = 6; w[OP_group_set] = 6;
     } else if (lane == "delete") {
         w[OP_mk_graph] = 8; w[OP_mk_fitted] = 7;
         w_set(w, create_core, 10); w_set(w, links, 10); w_set(w, deletes, 9); w[OP_prop_create] = 5; w[OP_dim_append] = 8; w[OP_reopen] = 8; w[OP_use_stale] = 5; w[OP_abuse_tag] = 2;
@@ -237,6 +237,12 @@ Plan generate_plan(const std::string &lane, uint64_t seed, int tier) {
         o = pre(OP_create_section, "a"); o->a[1] = 0;
         o = pre(OP_create_tag, "a"); o->a[1] = 0;
         if (lane == "delete" ? r.chance(2, 3) : r.chance(1, 3)) { o = pre(OP_mk_graph, "%"); o->a[0] = 0; o->a[1] = 0; }
+    }
+    if ((lane == "names" || lane == "idhist") && r.chance(1, 3)) {
+        // a second block with the same linked structure: members of another block are what the list setters must refuse
+        Op *o = pre(OP_create_block, "b");
+        o = pre(OP_mk_graph, "%"); o->a[0] = 1; o->a[1] = 0; o->a[2] = 0;
+        o = pre(OP_mk_graph, "%"); o->a[0] = 0; o->a[1] = 0; o->a[2] = 0;
     }
     if (lane == "reject") {
         // two blocks with the same linked structure in each: "an entity of another block" (with and without a local namesake) is
